@@ -29,6 +29,9 @@ Inv_CollisionReported ==
     Accepted(o) /\ o.same_scope /\ Collides(o) /\ (o.outcome = "ok" => o.names_found) => o.outcome = "reported"
 \* "two different entities that share a scope never receive the same generated name": seen in the output itself
 Inv_DeclaredDistinct == LET o == Obs[i] IN Accepted(o) /\ o.outcome = "ok" /\ o.has_declared => NoDuplicates(o.declared)
+\* ... including the names the generator *derives* from the entities (a generated Python module binds no top-level
+\* name twice: two enumerations Ab / AB have different class names but one look-up table _AB_FROM_STR)
+Inv_NoDuplicateModuleNames == LET o == Obs[i] IN Accepted(o) /\ o.outcome = "ok" => Len(o.module_dups) = 0
 \* files are names in the scope of the output directory
 Inv_NoFileWrittenTwice == LET o == Obs[i] IN Accepted(o) /\ o.outcome = "ok" => Len(o.dup_paths) = 0
 
